@@ -63,6 +63,7 @@ package drpcconn
 //@   site (*Conn).doInvoke assert [C02.own-request] held(c.mu) && arg1 == strm && strm != nil && arg2 == enc && arg3 == rpc && sameSlice(arg4, c.wbuf) && arg6 == out
 //@   site (*Conn).doInvoke assert [C11.metadata-passed] mdset ==> arg5 == mdenc
 //@   site (*Conn).doInvoke assert [C11.no-metadata] !mdset ==> len(arg5) == 0
+//@   site (*Conn).doInvoke assert [C11.private-metadata] arr(arg5) == 0 || fresh(arg5)
 //@   check [C02.stream-closed] eventCount("call:(*Manager).NewClientStream") == 1 && nerr == nil ==> eventCount("call:(*Stream).Close") == 1
 
 // NewStream: like Invoke without a request; on a failing setup the stream is closed.
@@ -82,4 +83,5 @@ package drpcconn
 //@   ghost after:(*Conn).doNewStream serr = ret
 //@   site (*Conn).doNewStream assert [C02.own-stream] arg1 == strm && strm != nil && arg2 == rpc
 //@   site (*Conn).doNewStream assert [C11.metadata-passed] (mdset ==> arg3 == mdenc) && (!mdset ==> len(arg3) == 0)
+//@   site (*Conn).doNewStream assert [C11.private-metadata] arr(arg3) == 0 || fresh(arg3)
 //@   check [C02.closed-on-error] serr != nil ==> eventCount("call:(*Stream).Close") == 1 && err != nil
